@@ -152,6 +152,53 @@ def build(model: dict) -> FeatureModel:
     return FeatureModel(root, [build_constraint(c) for c in model.get("ctcs", [])])
 
 
+def morph(fm: FeatureModel, new_model: dict) -> FeatureModel:
+    """Edit `fm` IN PLACE, through the public attributes and methods a user has, until it is the model `new_model`
+    describes.  Feature objects are reused by name, Relation objects when owner and child list are unchanged (their
+    cardinalities are assigned in place), constraints when their name and tree are unchanged; everything else is
+    created.  This is how 'the same model, edited and analysed again' is produced (stale per-object state shows)."""
+    by_name = {}
+    stack = [fm.root]
+    while stack:
+        f = stack.pop()
+        by_name.setdefault(f.name, f)
+        for r in f.relations:
+            stack.extend(r.children)
+
+    def place(spec, parent):
+        f = by_name.get(spec["name"])
+        if f is None:
+            f = build_feature({**spec, "rels": []})
+        else:
+            f.is_abstract = spec.get("abstract", False)
+            f.feature_type = FeatureType[spec.get("ftype", "BOOLEAN")]
+        old = list(f.relations)
+        f.relations = []
+        f.parent = parent
+        for r in spec["rels"]:
+            kids = [place(c, f) for c in r["children"]]
+            keep = next((o for o in old if len(o.children) == len(kids) and all(a is b for a, b in zip(o.children, kids))), None)
+            if keep is not None:
+                old.remove(keep)
+                keep.card_min, keep.card_max, keep.parent = r["min"], r["max"], f
+                f.add_relation(keep)
+            else:
+                f.add_relation(Relation(f, kids, r["min"], r["max"]))
+        return f
+
+    fm.root = place(new_model["root"], None)
+    old_ctcs = list(fm.ctcs)
+    fm.ctcs = []
+    for c in new_model.get("ctcs", []):
+        keep = next((o for o in old_ctcs if o.name == c["name"] and node_to_expr(o.ast.root) == c["ast"]), None)
+        if keep is not None:
+            old_ctcs.remove(keep)
+            fm.ctcs.append(keep)
+        else:
+            fm.ctcs.append(build_constraint(c))
+    return fm
+
+
 # ---------------------------------------------------------------- observer
 def obs_value(v, strict=True):
     """Python value -> comparable JSON-ish value that keeps the Python type visible."""
